@@ -1,14 +1,16 @@
 #!/usr/bin/env python3
-"""tools/seedimport.py <scratch-worktree> <Cxx> [base-commit] : copy OUT/A, OUT/B of a seeding agent into seeded/Cxx-A, seeded/Cxx-B"""
+"""tools/seedimport.py <scratch-worktree> <Cxx> [base-commit] [letters] : copy OUT/A, OUT/B of a seeding agent into seeded/Cxx-<letters[0]>,
+seeded/Cxx-<letters[1]> (default AB; round 3 uses CD, round 4 EF)"""
 import json, os, shutil, sys
 V = os.path.dirname(os.path.dirname(os.path.abspath(__file__)))
 src_root, pid = sys.argv[1], sys.argv[2]
 base = sys.argv[3] if len(sys.argv) > 3 else "?"
-for v in ("A", "B"):
+letters = sys.argv[4] if len(sys.argv) > 4 else "AB"
+for v, w in zip(("A", "B"), letters):
     src = os.path.join(src_root, "OUT", v)
     if not os.path.isdir(src):
         print("missing", src); continue
-    dst = os.path.join(V, "seeded", "%s-%s" % (pid, v))
+    dst = os.path.join(V, "seeded", "%s-%s" % (pid, w))
     os.makedirs(dst, exist_ok=True)
     for f in os.listdir(src):
         p = os.path.join(src, f)
